@@ -32,6 +32,10 @@ def register(reg):
         ("backward", "implies(self.type == 'Backward', result == self.params['ub'])"),
         ("read_disk", "implies(self.type == 'Read_disk', result == self.params['rd'])"),
         ("write_disk", "implies(self.type == 'Write_disk', result == self.params['wd'])"),
+        # hierarchical operations: index = [level, step]; params['rd'] / ['wd'] are per-level vectors
+        ("read_level", "implies(self.type == 'Read', result == self.params['rd'][self.index[0]])"),
+        ("write_level", "implies(self.type == 'Write' or self.type == 'Write_Forward', "
+                        "result == self.params['wd'][self.index[0]])"),
         ("free", "implies(self.type == 'Read_memory' or self.type == 'Write_memory' or "
                  "self.type == 'Write_Forward_memory' or self.type == 'Discard_memory' or "
                  "self.type == 'Discard_disk' or self.type == 'Discard_Forward_memory' or "
@@ -42,22 +46,37 @@ def register(reg):
         "seq.basic_functions.Operation.cost", self_class="Operation", params=[("self", "obj")],
         pure=True, returns="real", assumed=True, note=ASSUMED_NOTE, ensures=COST, frame=[], props=("C07",)))
     # F34: Sequence - makespan only
-    reg.add_class(ClassSpec("Sequence", "seq.basic_functions", fields=[("makespan", "real")]))
+    # `items` is ghost: the number of operations / sub-sequences inserted (only its positivity is used,
+    # for the one place where a builder looks at sequence[-1])
+    reg.add_class(ClassSpec("Sequence", "seq.basic_functions",
+                            fields=[("makespan", "real"), ("type", "str"), ("items", "int")]))
+    reg.add_class(ClassSpec("SeqItem", "seq.basic_functions", fields=[("type", "str")]))
+    for cls, ens in (("Sequence", [("as_many_as_inserted", "len(result) == self.items")]),
+                     ("SeqItem", [("non_empty", "len(result) >= 1")])):
+        reg.add(Contract(
+            "seq.basic_functions.%s.sequence" % cls, self_class=cls, params=[("self", "obj")],
+            is_property=True, pure=False, returns=("objlist", "SeqItem"), assumed=True,
+            note="the items of a sequence are opaque: only their `type` is ever read (hrevolve_aux looks "
+                 "for a trailing Discard, which costs nothing either way); a nested sequence built by the "
+                 "builders is never empty", ensures=ens, frame=[], props=("C07",)))
     reg.add(Contract(
         "seq.basic_functions.Sequence.__init__", self_class="Sequence",
         params=[("self", "obj"), ("function", ("obj", "Function")), ("levels", "any"), ("concat", "int")],
         defaults={"levels": "None", "concat": "0"}, assumed=True, note=ASSUMED_NOTE,
-        ensures=[("empty", "self.makespan == 0")], frame=["makespan"], props=("C07",)))
+        ensures=[("empty", "self.makespan == 0 and self.items == 0"), ("kind", "self.type == 'Function'")],
+        frame=["makespan", "type", "items"], props=("C07",)))
     reg.add(Contract(
         "seq.basic_functions.Sequence.insert", self_class="Sequence",
         params=[("self", "obj"), ("operation", ("obj", "Operation"))], assumed=True, note=ASSUMED_NOTE,
-        ensures=[("makespan_grows_by_cost", "self.makespan == old(self.makespan) + OPCOST(operation)")],
-        frame=["makespan"], props=("C07",)))
+        ensures=[("makespan_grows_by_cost", "self.makespan == old(self.makespan) + OPCOST(operation)"),
+                 ("one_more_item", "self.items == old(self.items) + 1")],
+        frame=["makespan", "items"], props=("C07",)))
     reg.add(Contract(
         "seq.basic_functions.Sequence.insert_sequence", self_class="Sequence",
         params=[("self", "obj"), ("sequence", ("obj", "Sequence"))], assumed=True, note=ASSUMED_NOTE,
-        ensures=[("makespan_adds", "self.makespan == old(self.makespan) + sequence.makespan")],
-        frame=["makespan"], props=("C07",)))
+        ensures=[("makespan_adds", "self.makespan == old(self.makespan) + sequence.makespan"),
+                 ("one_more_item", "self.items == old(self.items) + 1")],
+        frame=["makespan", "items"], props=("C07",)))
     reg.add(Contract(
         "seq.basic_functions.Sequence.shift", self_class="Sequence",
         params=[("self", "obj"), ("size", "int"), ("branch", "int")], defaults={"branch": "-1"},
